@@ -3,7 +3,7 @@
    What is proved is the labelling and routing: which (output, time, sample) every table row belongs to, that the
    pool of a posterior predictive model consists of joint draws, how the IDs of an averaged model are shifted.  The
    laws of the draws themselves are C06; the streams they use C16. *)
-From Coq Require Import List Bool String Arith.
+From Coq Require Import List Bool String Arith Permutation.
 From Chi Require Import Model.Predictive Proofs.Predictive.
 Import ListNotations.
 
@@ -38,3 +38,30 @@ Theorem C15_pam_ids : forall (T V : Type) tables before i t o v,
   In (i, t, o, v) (pam_tables T V tables before) ->
   before < i <= before + list_sum (map fst tables).
 Proof. exact pam_ids_in_range. Qed.
+
+(* ---- parameter names of a posterior predictive model (param_map) ---- *)
+(* every model parameter name is looked up once: position j reads the dataset variable the map gives for name j, or
+   the name itself; the targets may be other parameter names (swaps, chains) *)
+Theorem C15_param_map_positionwise : forall m names j n, nth_error names j = Some n ->
+  nth_error (translate m names) j =
+  Some (match find (fun kv => String.eqb (fst kv) n) m with Some kv => snd kv | None => n end).
+Proof. exact translate_spec. Qed.
+(* the order of the dictionary is irrelevant *)
+Theorem C15_param_map_order_independent : forall (m m' : list (string * string)) names,
+  NoDup (map fst m) -> Permutation m m' -> translate m names = translate m' names.
+Proof. exact translate_order_independent. Qed.
+(* replacing in place while walking through the dictionary is a different function *)
+Theorem C15_param_map_chained_refuted : exists m names,
+  NoDup (map fst m) /\ NoDup names /\ translate_chained m names <> translate m names.
+Proof. exact translate_chained_refuted. Qed.
+
+(* ---- averaged (PAM) model: which model generates which sample ID ---- *)
+(* for ANY vector of model draws: every ID belongs to one model, model m owns exactly as many IDs as it was drawn *)
+Theorem C15_pam_partition : forall k draws, Forall (fun d => d < k) draws ->
+  List.length (id_models (counts k draws)) = List.length draws /\
+  forall m, m < k -> count_occ Nat.eq_dec (id_models (counts k draws)) m = count_occ Nat.eq_dec draws m.
+Proof. exact pam_partition. Qed.
+(* counting only the models that occur (numpy.unique) attributes IDs to the wrong models *)
+Theorem C15_pam_unique_counts_refuted : exists k draws, Forall (fun d => d < k) draws /\
+  id_models (counts_unique k draws) <> id_models (counts k draws).
+Proof. exact counts_unique_refuted. Qed.
